@@ -972,6 +972,12 @@ class RewriteAtQuery(NodeTransformer):
             not self.replaced
             and hasattr(node, "_location")
             and node._location == self.search
+            # A definition only ever takes the place of a definition of the same kind: an
+            # assignment that re-binds the same name (`C = decorate(C)`) shares its location
+            and (
+                not isinstance(self.replacement_node, (ClassDef, FunctionDef))
+                or isinstance(node, type(self.replacement_node))
+            )
         ):
             self.replaced = True
             return self.replacement_node
